@@ -1,5 +1,5 @@
 (* C04 - Decoding never panics, whatever bytes arrive. *)
-From MQ Require Import Model.Stream Proofs.StreamP Proofs.DecP Proofs.ReadP Model.WireDecIR Proofs.WireDecIRP gen.GenWireDec gen.SyncWireDec Model.BufIR Proofs.BufIRP gen.GenBuf gen.SyncBuf Proofs.WireIRP gen.GenWire gen.SyncWire.
+From MQ Require Import Model.Stream Proofs.StreamP Proofs.DecP Proofs.ReadP Model.WireDecIR Proofs.WireDecIRP gen.GenWireDec gen.SyncWireDec Model.BufIR Proofs.BufIRP gen.GenBuf gen.SyncBuf Proofs.WireIRP gen.GenWire gen.SyncWire Model.GetAnyIR Proofs.GetAnyIRP gen.GenGetAny gen.SyncGetAny.
 
 (* UnmarshalBinary of every packet type, on every receiver state and
    every byte string, returns normally (Panic is produced in the model
@@ -96,3 +96,17 @@ Theorem C04_get_is_the_source : forall w old s,
   = get_val w old s.
 Proof. exact get_val_is_progs. Qed.
 Print Assumptions C04_get_is_the_source.
+
+(* The property loop itself - getany, where the defects of the decoders lived
+   (an error that does not stop the loop, a property length that runs past the
+   data, the identifier that survives an iteration) - is buffer.getAny as it
+   stands: its regenerated statement list (atEnd, the property length, `end`,
+   `for b.i < end`, the identifier, the return on error, `fields[id]` and
+   `continue`, the switch with its two cases and its default), run with the
+   environment a decoder skeleton's (map, will, mode) triple stands for, is
+   Codec.getany on every reader state. *)
+Theorem C04_property_loop_is_the_source :
+  g_getany_prog = getany_prog /\
+  forall m will sm s, run_getany getany_prog (env_of_mode m will sm) s = getany m will sm s.
+Proof. exact (conj sync_getany_prog getany_is_prog). Qed.
+Print Assumptions C04_property_loop_is_the_source.
